@@ -76,14 +76,14 @@ func genC14(r *Rng, tier string) []Case {
 		}
 		d := c14Desc{}
 		// a few keys are "hot" so that several definitions share them
-		hot := []int{r.Intn(len(keyPool)), r.Intn(len(keyPool)), 19}
+		hot := []int{r.Intn(nBaseKeys), r.Intn(nBaseKeys), 19}
 		for j := 0; j < np+1; j++ {
 			def := c14Def{Kind: Pick(r, c14Kinds)}
 			nf := r.Intn(4)
 			for f := 0; f < nf; f++ {
 				ki := Pick(r, hot)
 				if r.Chance(1, 4) {
-					ki = r.Intn(len(keyPool))
+					ki = r.Intn(nBaseKeys)
 				}
 				vs := valuesFor(keyPool[ki], pool)
 				def.Fields = append(def.Fields, c14Field{Key: ki, Val: Pick(r, vs)})
@@ -102,7 +102,7 @@ func genC14(r *Rng, tier string) []Case {
 		ops := []string{"kind", "kindD", "field", "field", "field", "fieldD", "func", "funcD"}
 		lk := c14Lookup{Op: Pick(r, ops), Kind: Pick(r, c14Kinds), Key: Pick(r, hot), Want: -1}
 		if r.Chance(1, 5) {
-			lk.Key = r.Intn(len(keyPool))
+			lk.Key = r.Intn(nBaseKeys)
 		}
 		// want: usually a value that some definition stores under the key, else anything
 		var cands []int
